@@ -10,7 +10,7 @@ THEOREMS = ['C02.C02_sync_erases_history', 'C02.C02_remove_all_clean', 'C02.C02_
             'C02.C02_sort_is_sorted_perm']
 
 LIB = {
-    'stk1': 'abi <abi/4.0>,\n\ninclude <tunables/global>\n\n@{exec_path} = @{bin}/stk1\nprofile stk1 @{exec_path} {\n  include <abstractions/base>\n\n  @{exec_path} mr,\n  @{bin}/a rPx,\n  /etc/stk1 r,\n\n  include if exists <local/stk1>\n}\n',
+    'stk1': 'abi <abi/4.0>,\n\ninclude <tunables/global>\n\n@{exec_path} = @{bin}/stk1\nprofile stk1 @{exec_path} {\n  include <abstractions/base>\n\n  @{exec_path} mr,\n  @{bin}/a rPx,\n  @{bin}/c rCx,\n  @{bin}/d rcx,\n  @{lib}/e Cix,\n  @{bin}/f rPUx,\n  @{bin}/g rpix,\n  /opt/{linux,bsd}/ r,\n  /etc/stk1 r,\n\n  include if exists <local/stk1>\n}\n',
     'stk2': 'abi <abi/4.0>,\n\ninclude <tunables/global>\n\n@{exec_path} = @{lib}/stk2\nprofile stk2 @{exec_path} {\n  include <abstractions/base>\n\n  @{exec_path} mr,\n  @{bin}/b rix,\n  /etc/stk2 w,\n  #aa:dbus own bus=system name=org.stk2\n\n  include if exists <local/stk2>\n}\n',
     'tgt1': 'abi <abi/4.0>,\n\ninclude <tunables/global>\n\n@{exec_path} = @{bin}/tgt1 @{lib}/tgt1\nprofile tgt1 @{exec_path} {\n  include <abstractions/base>\n\n  include if exists <local/tgt1>\n}\n',
     'tgt3': 'abi <abi/4.0>,\n\ninclude <tunables/global>\n\n@{exec_path}  = @{bin}/tgt3\n@{exec_path} += @{lib}/tgt3\n@{exec_path} += /opt/tgt3/bin/tgt3\nprofile tgt3 @{exec_path} {\n  include <abstractions/base>\n\n  include if exists <local/tgt3>\n}\n',
